@@ -143,6 +143,8 @@ def _drop_finds_add_submodule(s):
     # the build script stops searching for files and gains a new submodule (a new regeneration input)
     _write(s + '/build.bfg', "project('p')\nsubmodule('sub')\nsubmodule('sub2')\ncommand('say', cmd=['echo', argv.subname])\n"
                              "pkg_config('p', version='1.0')\n")
+    if not _os.path.exists(s + '/sub/build.bfg'):        # (an earlier edit of the history may have dropped it)
+        _write(s + '/sub/build.bfg', "copy_file('s.txt')\n")
     _write(s + '/sub2/build.bfg', "copy_file('u.txt')\n")
     _write(s + '/sub2/u.txt', '')
     _write(s + '/sub2/v.txt', '')
